@@ -160,7 +160,14 @@ impl Method for PhoneticMethod {
                 self.suggestion.user_autocorrect =
                     serde_json::from_slice(&read(&mut file)).unwrap_or_default();
                 self.modified = modified;
+                // The cached suggestions were made with the old entries.
+                self.suggestion.cache.clear();
             }
+        } else if self.modified != SystemTime::UNIX_EPOCH {
+            // The file was removed in the meantime.
+            self.suggestion.user_autocorrect.clear();
+            self.modified = SystemTime::UNIX_EPOCH;
+            self.suggestion.cache.clear();
         }
     }
 
